@@ -1,7 +1,6 @@
 package main
 
 import (
-	"bytes"
 	"encoding/json"
 	"fmt"
 	"os"
@@ -166,7 +165,7 @@ func runOne(bin string, in simInput, timeout time.Duration) *outcome {
 	if !in.Verbose {
 		cmd.Env = append(cmd.Env, "TMPDIR="+dir)
 	}
-	var stderr, stdout bytes.Buffer
+	var stderr, stdout capBuffer
 	cmd.Stderr = &stderr
 	cmd.Stdout = &stdout
 	start := time.Now()
@@ -200,6 +199,44 @@ func runOne(bin string, in simInput, timeout time.Duration) *outcome {
 		}
 	}
 	return o
+}
+
+// capBuffer keeps the first 256 KB and the last 1 MB of what a run process prints (a process
+// caught in a loop that logs can print gigabytes; panics and race reports are at the end, the
+// first report is at the beginning).
+type capBuffer struct {
+	head    []byte
+	tail    []byte
+	dropped int64
+}
+
+const capHead, capTail = 256 << 10, 1 << 20
+
+func (b *capBuffer) Write(p []byte) (int, error) {
+	n := len(p)
+	if len(b.head) < capHead {
+		k := capHead - len(b.head)
+		if k > len(p) {
+			k = len(p)
+		}
+		b.head = append(b.head, p[:k]...)
+		p = p[k:]
+	}
+	if len(p) > 0 {
+		b.tail = append(b.tail, p...)
+		if len(b.tail) > 2*capTail {
+			b.dropped += int64(len(b.tail) - capTail)
+			b.tail = append(b.tail[:0], b.tail[len(b.tail)-capTail:]...)
+		}
+	}
+	return n, nil
+}
+
+func (b *capBuffer) String() string {
+	if b.dropped == 0 {
+		return string(b.head) + string(b.tail)
+	}
+	return string(b.head) + fmt.Sprintf("\n[... %d bytes of output dropped ...]\n", b.dropped) + string(b.tail)
 }
 
 func envOr(k, d string) string {
